@@ -143,6 +143,7 @@ func Gen(seed uint64, profile string) *Scenario {
 		sc.Adds = append([]Add{{Kind: "remote", Addr: sc.Pkgs[0].Source(m.SubPath), Finder: m.Finder}}, sc.Adds...)
 	}
 	aliasSpelling(simkit.NewRNG(seed, "bw/alias-spelling"), sc)
+	madeAddresses(simkit.NewRNG(seed, "bw/made-addresses"), sc)
 	// (not with the post-build operations, whose oracles relate paths to the root as spelled)
 	sc.TargetVia = len(sc.Post) == 0 && simkit.NewRNG(seed, "bw/target-via").Chance(1, 6)
 	vr := simkit.NewRNG(seed, "bw/variants")
@@ -1124,4 +1125,63 @@ func (sc *Scenario) regIndexOf(addr string) int {
 		}
 	}
 	return -1
+}
+
+// madeAddresses lets every other reference to one package (one run in twelve) be an
+// address that its user builds with MakeRemoteSource from a URL value carrying a field
+// that printing ignores, instead of parsing the text: the same package.
+func madeAddresses(r *simkit.RNG, sc *Scenario) {
+	if len(sc.Pkgs) == 0 || !r.Chance(1, 12) {
+		return
+	}
+	p := &sc.Pkgs[r.Intn(len(sc.Pkgs))]
+	pre := "made-omithost::"
+	if p.Query != "" {
+		pre = simkit.Pick(r, []string{"made-forcequery::", "made-omithost::"})
+	}
+	n := 0
+	mark := func(t string) string {
+		s := t
+		if p.Query != "" {
+			if !strings.HasSuffix(s, "?"+p.Query) {
+				return t
+			}
+			s = strings.TrimSuffix(s, "?"+p.Query)
+		} else if strings.Contains(s, "?") {
+			return t
+		}
+		names := false
+		for _, base := range []string{p.Base, p.AltBase} {
+			if base != "" && (s == base || strings.HasPrefix(s, base+"//")) {
+				names = true
+			}
+		}
+		if !names {
+			return t
+		}
+		n++
+		if n%2 == 0 {
+			return pre + t
+		}
+		return t
+	}
+	for i := range sc.Adds {
+		if sc.Adds[i].Kind == "remote" {
+			sc.Adds[i].Addr = mark(sc.Adds[i].Addr)
+		}
+	}
+	for i := range sc.Pkgs {
+		for j := range sc.Pkgs[i].Mods {
+			for d := range sc.Pkgs[i].Mods[j].Deps {
+				if sc.Pkgs[i].Mods[j].Deps[d].Kind == "remote" {
+					sc.Pkgs[i].Mods[j].Deps[d].Addr = mark(sc.Pkgs[i].Mods[j].Deps[d].Addr)
+				}
+			}
+		}
+	}
+	for i := range sc.Regs {
+		for j := range sc.Regs[i].Versions {
+			sc.Regs[i].Versions[j].Source = mark(sc.Regs[i].Versions[j].Source)
+		}
+	}
 }
